@@ -139,6 +139,7 @@ def main():
     body_s = gs.emit("std")
     body_a = ga.emit("alloc")
     ext_cases = "\n".join(f"  | {i} => .{r}   -- {n}" for n, (i, r) in sorted(EXT.items(), key=lambda x: x[1][0]))
+    ext_names = ", ".join(f'("{n}", {i})' for n, (i, r) in sorted(EXT.items(), key=lambda x: x[1][0]))
     unknown_cases = "\n".join(f"  -- unknown constructor {n} = {i}: treated as neither Send nor Sync" for n, i in gs.unknown.items())
     txt = f"""/-
   FcGen/Types.lean — GENERATED by tools/gen_autotraits.py from /repo's macro-expanded source
@@ -160,6 +161,9 @@ def ext : Nat → Rule
 {body_s}
 
 {body_a}
+
+/-- names of the external constructors (for the comparison of `ext` with rustc, probes/src/bin/ext_rules.rs) -/
+def extNames : List (String × Nat) := [{ext_names}]
 
 /-- explicit `unsafe impl Send/Sync` and negative impls found in the source (the structural rule
     would not apply to those types): {len(std['impls'])} (std), {len(alloc['impls'])} (alloc) -/
